@@ -35,6 +35,9 @@ def consts():
 
 
 def scenario(rng, kind):
+    late = kind.endswith("-late")           # gate scenarios: the calls come after the not-responding declaration
+    if late:
+        kind = kind[:-5]
     snap = env.REPO + "/tests/snapshots/inXM-Pump 1 running-2020-12-08 19_54_01.snapshot" if kind in ("gate-active", "active-lossy") else None
     sc = EngineScenario(rng, rank=rng.choice(["stable", "perm", "reverse"]), snapshot=snap)
     try:
@@ -110,7 +113,7 @@ def scenario(rng, kind):
                 s.quiesce()
             net.blackhole = True
             s.advance(GeckoConfig.PING_FREQUENCY_IN_SECONDS * 2 + (1.5 if kind == "gate-active" else 30))
-            if rng.random() < 0.6:
+            if late:
                 # ... and stays silent until the client has declared it not responding; the calls arrive shortly
                 # after that declaration (the gate stays closed: no ping has been answered since)
                 n0 = len(s.events)
@@ -202,6 +205,8 @@ def run(ctx):
     n = 24 if ctx.quick else 400
     for i in range(n):
         kind = "overlap" if i % 8 == 2 else "down" if i % 8 == 4 else "gate" if i % 8 == 7 else "gate-active" if i % 8 == 3 else "chatter" if i % 8 == 5 else "stall" if i % 8 == 1 else "active-lossy" if i % 8 == 6 else "calls"
+        if kind.startswith("gate") and (i // 8) % 2 == 1:
+            kind += "-late"
         logs.append(scenario(rng, kind))
     # logs are validated against the configuration that was in force while they ran
     groups = {}
